@@ -36,6 +36,7 @@ def wl_cbf(ctx, rng, case):
     out = Counter({k: 0 for k in keys})
     removes = 0
     for step in range(rng.randint(4, 40)):
+        bl.noise_reads(ctx, rng, f, keys)
         r = rng.random()
         live = [k for k in keys if out[k] > 0]
         if r < 0.5 or not live:
@@ -128,6 +129,28 @@ def wl_ccf(ctx, rng, case):
 def _ccf_run(ctx, rng, case, refill):
     import probables as P
 
+    if case.index == 0:
+        # one very hot key: a count beyond two bytes, on a table that kicks and expands around it
+        f = P.CountingCuckooFilter(capacity=2, bucket_size=1, max_swaps=3, auto_expand=True, finger_size=2)
+        n = 66000 if not refill else 65536
+        for i in range(n):
+            f.add("hot")
+            if i in (254, 255, 256, 65534, 65535):
+                ctx.check(f.check("hot") == i + 1, f"counting cuckoo filter reports {f.check('hot')} after {i + 1} additions of one key")
+                ctx.counters["oracle_evaluations"] += 1
+        for j in range(6):
+            f.add(f"other{j}")  # kicks / expansions move the hot bin around
+        ctx.check(f.check("hot") == n, "count of a hot key changed when other keys were added", got=f.check("hot"), want=n)
+        g = P.CountingCuckooFilter.frombytes(bytes(f))
+        g.fingerprint_size = 2
+        ctx.check(g.check("hot") == n, "count of a hot key differs after a reload", got=g.check("hot"), want=n)
+        f.remove("hot")
+        ctx.check(f.check("hot") == n - 1, "removing one of many additions of a hot key", got=f.check("hot"), want=n - 1)
+        ctx.count("ccf.hot_key_beyond_two_bytes")
+        case.desc = {"kind": "one key added 65 536+ times"}
+        case.nontrivial = True
+        return
+
     cfg = ck.gen_cfg(rng, counting=True)
     if refill:
         cfg.capacity = rng.choice([2, 3, 4, 5, 8])
@@ -159,6 +182,12 @@ def _ccf_run(ctx, rng, case, refill):
         else:
             ops.append(("reload", rng.choice(["bytes", "path"])))
     ops = ops[:22] if not refill else ops
+    if rng.random() < 0.2:
+        # a hot key: hundreds of additions of one stored key (counts beyond one and two bytes), then removals and more additions
+        hot = rng.choice(keys)
+        at = rng.randint(0, len(ops))
+        ops[at:at] = [("add", hot), ("burst", hot, rng.choice([255, 256, 300, 600])), ("remove", hot), ("add", hot), ("add", hot)]
+        ctx.count("ccf.histories_with_a_hot_key")
     case.desc = dict(cfg.desc(), n_keys=len(keys), kind="fill, remove to zero, re-add" if refill else "mixed")
     for op in ops:
         case.op(*op)
